@@ -147,14 +147,26 @@ func rulesC20(c *Ctx) {
 				nApp++
 				v := g.VertexOf(call)
 				d := call.Args[0]
-				okp, _ := g.PostDominatedBy(v, func(u int) bool {
+				isAdd := func(u int) bool {
 					as, ok := g.Node(u).(*ast.AssignStmt)
 					if !ok || as.Tok != token.ADD_ASSIGN || !f.IsField(as.Lhs[0], nBytes) {
 						return false
 					}
 					lc, ok := ast.Unparen(as.Rhs[0]).(*ast.CallExpr)
 					return ok && f.BuiltinName(lc) == "len" && sameExpr(lc.Args[0], d)
-				})
+				}
+				okp, _ := g.PostDominatedBy(v, isAdd)
+				if !okp {
+					// the same pair in the other order (both under the store lock, nothing can leave in between): the addition
+					// sits on every path to the append, and nothing but the append follows it
+					for u := 0; u < g.N; u++ {
+						if isAdd(u) && g.Dominates(u, v) {
+							if all, _ := g.MustPass(u, g.Exits, func(x int) bool { return x == v }); all {
+								okp = true
+							}
+						}
+					}
+				}
 				c.Check(okp, "appendData-paired:"+f.Name(), f, call, "every appendData(d) is followed on all paths by nBytes += len(d)")
 			}
 			for _, call := range f.CallsIn(f.Body, removeFirst, false) {
